@@ -58,6 +58,7 @@ def _feasible(f):
     c = CTX
     c.solver.push()
     c.solver.add(*c.pc)
+    c.solver.add(*sqrt_axioms())      # defining axioms of sqrt constants / quotient variables
     c.solver.add(f)
     t = time.time()
     r = c.solver.check()
@@ -218,21 +219,29 @@ class SI:
         return s
 
     def __lt__(s, o):
+        if isinstance(o, np.ndarray) and o.shape != ():
+            return NotImplemented
         if isinstance(o, (S, float, Fraction)):
             return S.of(s) < o
         return SB(s.e < toi(o))
 
     def __le__(s, o):
+        if isinstance(o, np.ndarray) and o.shape != ():
+            return NotImplemented
         if isinstance(o, (S, float, Fraction)):
             return S.of(s) <= o
         return SB(s.e <= toi(o))
 
     def __gt__(s, o):
+        if isinstance(o, np.ndarray) and o.shape != ():
+            return NotImplemented
         if isinstance(o, (S, float, Fraction)):
             return S.of(s) > o
         return SB(s.e > toi(o))
 
     def __ge__(s, o):
+        if isinstance(o, np.ndarray) and o.shape != ():
+            return NotImplemented
         if isinstance(o, (S, float, Fraction)):
             return S.of(s) >= o
         return SB(s.e >= toi(o))
@@ -240,6 +249,8 @@ class SI:
     def __eq__(s, o):
         if o is None:
             return False
+        if isinstance(o, np.ndarray) and o.shape != ():
+            return NotImplemented
         if isinstance(o, (S, float, Fraction)):
             return S.of(s) == o
         try:
@@ -249,6 +260,8 @@ class SI:
 
     def __ne__(s, o):
         r = s.__eq__(o)
+        if r is NotImplemented:
+            return r
         if isinstance(r, SB):
             return ~r
         return not r
@@ -547,6 +560,8 @@ class S:
 
     # comparisons --------------------------------------------------------
     def _cmp(self, o, op):
+        if isinstance(o, np.ndarray) and o.shape != ():
+            return NotImplemented
         o = S.of(o)
         if not (_isz(self.im) and _isz(o.im)):
             raise TypeError("ordering of complex symbolic values")
@@ -569,6 +584,8 @@ class S:
     def __eq__(self, o):
         if o is None:
             return False
+        if isinstance(o, np.ndarray) and o.shape != ():
+            return NotImplemented
         try:
             o = S.of(o)
         except TypeError:
@@ -586,6 +603,8 @@ class S:
 
     def __ne__(self, o):
         r = self.__eq__(o)
+        if r is NotImplemented:
+            return r
         if isinstance(r, SB):
             return ~r
         return not r
